@@ -126,7 +126,7 @@ theorem take_cutIdx {w : Nat} (L : List (St w)) (k ww : Nat) : ∀ lb, lb < L.le
     intro hl
     have hget : L[lb + 1]? = some L[lb + 1] := List.getElem?_eq_getElem hl
     have htake : L.take (lb + 1 + 1) = L.take (lb + 1) ++ [L[lb + 1]] := by
-      rw [List.take_succ, hget]; rfl
+      rw [List.take_add_one, hget]; rfl
     have hne : (L.take (lb + 1)).reverse ≠ [] := by
       intro h
       have hlen : ((L.take (lb + 1)).reverse).length = lb + 1 := by
